@@ -437,7 +437,7 @@ func printerFamilies(tier string) []fw.Family {
 						return
 					}
 					seenState[k] = struct{}{}
-					r.States++
+					r.Count("printer checks on depth-4 states (distinct per worker)", 1)
 					checkPrinter(r, p)
 				},
 				Desc: func(i int64) string { return c10.Names(h.Calls(i)) },
